@@ -15,9 +15,18 @@ var (
 
 // Go replaces `go f()` in rewritten repository files.
 func Go(f func()) {
-	if s := Active(); s != nil && s.ManageSpawned {
-		s.Spawn(f)
-		return
+	managedCaller := false
+	if s := Active(); s != nil {
+		if s.ManageSpawned {
+			s.Spawn(f)
+			return
+		}
+		managedCaller = true
+	}
+	if managedCaller {
+		// a free-running goroutine spawned by a scheduled thread: let it run until it parks before the
+		// spawning thread continues, so that the execution stays a function of the schedule
+		defer Quiesce()
 	}
 	started := make(chan struct{})
 	go func() {
